@@ -217,6 +217,47 @@ func createLastInsertIDResult(lastInsertID uint64, asName string) *mysql.Result 
 	return ret
 }
 
+// MentionsShardTable reports whether the statement text contains, in any letter case and
+// as a whole identifier, the name of a table that has a shard rule. The token pre-check
+// (CheckUnshardBase/Insert/Update) only recognises table names in a few token positions;
+// a text that names a sharded table anywhere is left to the parser-based analysis. This can
+// only make the pre-check refuse more statements, never fewer.
+func MentionsShardTable(rt *router.Router, sql string) bool {
+	lower := strings.ToLower(sql)
+	for _, tables := range rt.GetAllRules() {
+		for table := range tables {
+			if containsIdentifier(lower, table) {
+				return true
+			}
+		}
+	}
+	return false
+}
+
+func isIdentifierByte(c byte) bool {
+	return c == '_' || c == '$' || c >= 0x80 || ('0' <= c && c <= '9') || ('a' <= c && c <= 'z') || ('A' <= c && c <= 'Z')
+}
+
+// containsIdentifier reports whether name occurs in s delimited by non-identifier bytes.
+func containsIdentifier(s, name string) bool {
+	if name == "" {
+		return false
+	}
+	for from := 0; from < len(s); {
+		i := strings.Index(s[from:], name)
+		if i < 0 {
+			return false
+		}
+		i += from
+		j := i + len(name)
+		if (i == 0 || !isIdentifierByte(s[i-1])) && (j == len(s) || !isIdentifierByte(s[j])) {
+			return true
+		}
+		from = i + 1
+	}
+	return false
+}
+
 func CheckUnshardBase(tokenId int, tokens []string, rt *router.Router, db string) (string, bool) {
 	ruleDB := db
 	tokensLen := len(tokens)
